@@ -53,6 +53,12 @@ type Line struct {
 	Bytes []byte  `json:"bytes"` // the string operand (character codes)
 	Hex   bool    `json:"hex"`   // write as hexadecimal string (§7.3.4.3) instead of literal (§7.3.4.2)
 	Text  string  `json:"text"`  // the Unicode the font defines for Bytes
+	// Saved: the text object stands between q and Q, so the font it selects is gone again behind it (the font and
+	// its size are graphics state parameters, 9.3.1 / 8.4.1)
+	Saved bool `json:"saved,omitempty"`
+	// Inherit: the text object selects no font; Font and Size name the ones in effect (those of the nearest line
+	// before it that is not Saved)
+	Inherit bool `json:"inherit,omitempty"`
 }
 
 // Page is one page leaf. ID is stable across revisions.
